@@ -52,6 +52,13 @@ Theorem C20_method_sig_refuted :
 Proof. exact method_sig_refuted. Qed.
 Print Assumptions C20_method_sig_refuted.
 
+(* open finding F52: a type string containing '<' or '>' (str() of a typing construct over a function-local
+   class: "...<locals>...") is outside typestr_ok, hence outside the preconditions of C20_stub_valid_partial;
+   that such a line is not valid Python is decided by ast.parse in the stubs stream *)
+Theorem C20_F52_excluded : forall t, known_F52 t = true -> typestr_ok t = false.
+Proof. exact known_F52_excluded. Qed.
+Print Assumptions C20_F52_excluded.
+
 (* by construction: the model is a function without an output channel *)
 Theorem C20_stub_silent : forall tgt cn fs, snd (generate_stub_io tgt cn fs) = [].
 Proof. exact stub_silent. Qed.
